@@ -95,8 +95,10 @@ def register(prop, run, KERNELS, C01_COVERS):
 
     prop("C03",
          quick=[run("C03_torn", covers=["done", "crash-inside-root-record", "crash-inside-data", "recovered-last-flush", "continued"], prior=1, inflight=1, vlen=1),
-                run("C03_junk", covers=["done", "recovered-last-flush", "continued"], prior=1, vlen=1, junkmin=0, junkmax=24)],
-         thorough=[run("C03_torn", covers=["done", "crash-inside-root-record", "crash-inside-data", "recovered-last-flush", "continued"], prior=2, inflight=2, vlen=2, budget=3000),
+                run("C03_junk", covers=["done", "recovered-last-flush", "continued"], prior=1, vlen=1, junkmin=0, junkmax=24),
+                run("C03_accept", covers=["done", "accepted", "rejected"], junkmax=2)],
+         thorough=[run("C03_accept", covers=["done", "accepted", "rejected"], junkmax=6),
+                   run("C03_torn", covers=["done", "crash-inside-root-record", "crash-inside-data", "recovered-last-flush", "continued"], prior=2, inflight=2, vlen=2, budget=3000),
                    run("C03_torn", covers=["done", "crash-inside-root-record"], prior=1, inflight=1, vlen=7, budget=3000),
                    run("C03_junk", covers=["done", "recovered-last-flush", "continued"], prior=2, vlen=2, junkmin=0, junkmax=45, budget=3000)],
          outside=["values of 8 or more bytes (long enough, with the priority field, to spell both end markers and a consistent trailer: the adversarial value the property excludes)", "junk tails of 46 bytes or more (a complete self-consistent root record fits)", "media faults that reorder or alter already written bytes", "more than 2 prior flushes / 2 collections"],
@@ -105,8 +107,11 @@ def register(prop, run, KERNELS, C01_COVERS):
 
     prop("C04",
          quick=[run("C04_hist", covers=["done", "had-snapshot"], store=0, k=4, snaps=2, opmask=mask(0, 1, 4, 5, 6)),
-                run("C04_hist", covers=["done", "had-snapshot"], store=1, k=3, snaps=2, opmask=mask(0, 1, 2, 3, 4, 6, 7, 8, 10, 15))],
+                run("C04_hist", covers=["done", "had-snapshot"], store=1, k=3, snaps=2, opmask=mask(0, 1, 2, 3, 4, 6, 7, 8, 10, 15, 16)),
+                run("C04_hist", covers=["done", "had-snapshot"], store=0, k=4, snaps=2, init=2, opmask=mask(0, 4, 6, 10))],
          thorough=[run("C04_hist", covers=["done", "had-snapshot"], store=1, k=5, snaps=2, opmask=mask(0, 1, 2, 3, 4, 5, 6), budget=3000),
+                   run("C04_hist", covers=["done", "had-snapshot"], store=0, k=6, snaps=2, init=2, opmask=mask(0, 4, 6), budget=3000),
+                   run("C04_hist", covers=["done", "had-snapshot"], store=1, k=5, snaps=2, init=1, opmask=mask(0, 2, 4, 6, 10, 16), budget=3000),
                    run("C04_hist", covers=["done", "had-snapshot"], store=1, k=4, snaps=3, opmask=mask(0, 1, 2, 3, 4, 5, 6, 7, 8, 9, 10, 15), budget=3000)],
          outside=["histories longer than K = 4 (quick) / 5 (thorough) steps", "more than 2 / 3 snapshots, more than collections a, b", "FlushRevert on the original while snapshots are open (documented as unsupported)", "1-byte keys and values"],
          text=hist_txt + "Operations: Set, Delete, Flush, Evict, Snapshot (of the store or of a snapshot), close a snapshot, snapshot.FlushRevert, RemoveCollection, SetCollection on an existing name, Store.Close. Snapshots must keep reading the contents at their creation, must refuse Set/Delete/Flush, and snapshot-side operations must not write to the file.",
@@ -202,10 +207,10 @@ def register(prop, run, KERNELS, C01_COVERS):
          note=NOTE, technique="symbolic execution of go/ssa + SMT with an enumerated scheduler (context-bounded)", design_ref="DESIGN.md §4 C18")
 
     prop("C05",
-         quick=[run("C05_conc", covers=["done", "flushed", "preempted"], initial=1, mutations=1, flusher=1, preemptions=1, budget=900)],
-         thorough=[run("C05_conc", covers=["done", "flushed", "preempted"], initial=2, mutations=1, flusher=1, preemptions=1, budget=3000),
-                   run("C05_conc", covers=["done", "preempted"], initial=1, mutations=2, flusher=0, preemptions=2, budget=3000),
-                   run("C05_conc", covers=["done", "flushed", "preempted"], initial=1, mutations=2, flusher=1, preemptions=1, budget=3000)],
+         quick=[run("C05_conc", covers=["done", "flushed", "preempted"], initial=1, mutations=1, flusher=1, preemptions=1, nkeys=2, evict=0, dirty=0, maporder=0, budget=900)],
+         thorough=[run("C05_conc", covers=["done", "flushed", "preempted"], initial=2, mutations=1, flusher=1, preemptions=1, nkeys=3, evict=1, dirty=1, maporder=0, budget=3000),
+                   run("C05_conc", covers=["done", "preempted"], initial=1, mutations=2, flusher=0, preemptions=2, nkeys=2, evict=0, dirty=0, maporder=0, budget=3000),
+                   run("C05_conc", covers=["done", "flushed", "preempted"], initial=1, mutations=2, flusher=1, preemptions=1, nkeys=2, evict=0, dirty=1, maporder=2, budget=3000)],
          outside=["weak-memory behaviours: sequential consistency is assumed (the code has deliberate unsynchronised accesses, nodeMutex = false)", "more than 1 (quick) / 2 pre-emptive context switches per schedule; switches at blocking points are free", "pre-emption only at mutex, atomic, channel, StoreFile-call and visitor-callback boundaries, not at every memory access", "one reader performing one operation; at most 2 mutations; concrete keys a..c (values symbolic)"],
          text="Bounded symbolic model checking with an enumerated scheduler: mutator, flusher and reader are interpreted goroutines over one harness StoreFile; every mutex operation, atomic, StoreFile call and visitor callback is a scheduling decision, enumerated exhaustively up to the pre-emption bound. Each read result must equal the contents of one version whose validity interval intersects the call interval (a visit is compared as a whole sequence), no schedule may panic or deadlock, the mutator's final state must be the sequential result, and the file written by the concurrent Flush must re-open to per-collection versions that were current during the Flush, a not later than b.",
          note=NOTE + "; sequential consistency; schedule-dependent counterexamples are replayed concretely in the engine when the native build cannot be forced onto the schedule",
